@@ -56,8 +56,8 @@ func (a lin) mulSym(sym string) (lin, bool) {
 	}
 	return r, true
 }
-func (a lin) sub(b lin) lin   { return a.add(b.scale(-1)) }
-func (a lin) eq(b lin) bool   { return a.sub(b).String() == "0" }
+func (a lin) sub(b lin) lin { return a.add(b.scale(-1)) }
+func (a lin) eq(b lin) bool { return a.sub(b).String() == "0" }
 func (a lin) nonneg() bool {
 	if a.k < 0 {
 		return false
